@@ -145,7 +145,9 @@ Theorem C02_disconnected_edges_copy : forall fd meta mol fgs, tmpl_dict fd -> re
   exists cf : Z -> Z,
     (forall a b, In a (node_keys frag) -> In b (node_keys frag) -> cf a = cf b -> a = b) /\
     (forall n, In n frag -> node_get mol (cf (nk n)) (S "fragid") = Some (VList [VInt (nk mn)]) /\
-                            node_get mol (cf (nk n)) (S "mapping") = Some (mapping_val name (nk n))) /\
+                            node_get mol (cf (nk n)) (S "mapping") = Some (mapping_val name (nk n)) /\
+                            forall key, key <> S "fragid" -> key <> S "mapping" -> key <> S "ez_isomer_atoms" ->
+                                        node_get mol (cf (nk n)) key = aget key (na n)) /\
     (forall a b, In a (node_keys frag) -> In b (node_keys frag) -> edge_attrs mol (cf a) (cf b) = tmpl_edge frag a b).
 Proof. exact disconnected_edges_copy. Qed.
 (** the bonding stage touches only the pairs it bonds: every other edge (in particular a template edge whose two atoms are not
@@ -174,7 +176,9 @@ Theorem C02_bonded_edges_copy : forall fd meta m1 fg1 legacy aa m2 fg2, tmpl_dic
   exists cf : Z -> Z,
     (forall a b, In a (node_keys frag) -> In b (node_keys frag) -> cf a = cf b -> a = b) /\
     (forall n, In n frag -> node_get m2 (cf (nk n)) (S "fragid") = Some (VList [VInt (nk mn)]) /\
-                            node_get m2 (cf (nk n)) (S "mapping") = Some (mapping_val name (nk n))) /\
+                            node_get m2 (cf (nk n)) (S "mapping") = Some (mapping_val name (nk n)) /\
+                            forall key, key <> S "fragid" -> key <> S "mapping" -> key <> S "ez_isomer_atoms" -> key <> S "hcount" ->
+                                        node_get m2 (cf (nk n)) key = aget key (na n)) /\
     (forall a b, In a (node_keys frag) -> In b (node_keys frag) -> edge_attrs m2 (cf a) (cf b) = tmpl_edge frag a b).
 Proof. exact bonded_edges_copy. Qed.
 Theorem C02_step_bonded_edges_copy : forall legacy aa fd prev car fo, tmpl_dict fd -> resolve_step_full legacy aa fd prev car = Ok fo ->
@@ -184,7 +188,9 @@ Theorem C02_step_bonded_edges_copy : forall legacy aa fd prev car fo, tmpl_dict 
   exists cf : Z -> Z,
     (forall a b, In a (node_keys frag) -> In b (node_keys frag) -> cf a = cf b -> a = b) /\
     (forall n, In n frag -> node_get (fo_m2 fo) (cf (nk n)) (S "fragid") = Some (VList [VInt (nk mn)]) /\
-                            node_get (fo_m2 fo) (cf (nk n)) (S "mapping") = Some (mapping_val name (nk n))) /\
+                            node_get (fo_m2 fo) (cf (nk n)) (S "mapping") = Some (mapping_val name (nk n)) /\
+                            forall key, key <> S "fragid" -> key <> S "mapping" -> key <> S "ez_isomer_atoms" -> key <> S "hcount" ->
+                                        node_get (fo_m2 fo) (cf (nk n)) key = aget key (na n)) /\
     (forall a b, In a (node_keys frag) -> In b (node_keys frag) -> edge_attrs (fo_m2 fo) (cf a) (cf b) = tmpl_edge frag a b).
 Proof. exact step_bonded_edges_copy. Qed.
 (** non-vacuity (with C02_disconnected_edges_copy_nonvacuous: tmpl_dict fd_AB): the base edges of {[#V].[#A][#B]} join different
@@ -218,7 +224,9 @@ Theorem C02_step_coarse_copy : forall legacy fd prev car fo, tmpl_dict fd -> res
   exists cf : Z -> Z,
     (forall a b, In a (node_keys frag) -> In b (node_keys frag) -> cf a = cf b -> a = b) /\
     (forall n, In n frag -> node_get (fo_mol fo) (cf (nk n)) (S "fragid") = Some (VList [VInt (nk mn)]) /\
-                            node_get (fo_mol fo) (cf (nk n)) (S "mapping") = Some (mapping_val name (nk n))) /\
+                            node_get (fo_mol fo) (cf (nk n)) (S "mapping") = Some (mapping_val name (nk n)) /\
+                            forall key, key <> S "fragid" -> key <> S "mapping" -> key <> S "ez_isomer_atoms" -> key <> S "hcount" ->
+                                        node_get (fo_mol fo) (cf (nk n)) key = aget key (na n)) /\
     (forall a b, In a (node_keys frag) -> In b (node_keys frag) ->
        has_edge (fo_mol fo) (cf a) (cf b) = has_edge frag a b /\
        forall key, edge_get (fo_mol fo) (cf a) (cf b) key = tmpl_get frag a b key).
@@ -232,8 +240,9 @@ Proof. vm_compute. reflexivity. Qed.
     attribute lists (wf_attrs), arbitrary coarse graph whose base edges join different coarse nodes, ANY aromaticity transcript g1
     that Hydro's contract accepts and that carries no 'rs_isomer' attribute, no atoms squashed: every coarse node with a fragment
     has its copy in the returned graph - hydrogens completed, sorted, E/Z-annotated, named -: an injective map cf from template
-    atoms to returned atoms recording exactly [coarse key] and [(fragname, atom)], with an edge exactly where the template has
-    one.  (Edge orders are outside the statement: the transcript may change them.) *)
+    atoms to returned atoms recording exactly [coarse key] and [(fragname, atom)] and carrying every template attribute the step does
+    not write itself ([written_keys]: fragid, mapping, ez_isomer_atoms, hcount, aromatic, ez_isomer, ez_isomer_class, atomname), with
+    an edge exactly where the template has one.  (Edge orders are outside the statement: the transcript may change them.) *)
 Theorem C02_step_allatom_copy : forall legacy fd prev g1 fo, tmpl_dict fd -> wf_attrs fd ->
   resolve_step_full legacy true fd prev (Some g1) = Ok fo -> fo_m3 fo = fo_m2 fo ->
   (forall es, base_edges (fo_meta fo) = Ok es -> wf_edges es) -> RebuildWf.all_no_rs g1 ->
@@ -242,7 +251,8 @@ Theorem C02_step_allatom_copy : forall legacy fd prev g1 fo, tmpl_dict fd -> wf_
   exists cf : Z -> Z,
     (forall a b, In a (node_keys frag) -> In b (node_keys frag) -> cf a = cf b -> a = b) /\
     (forall n, In n frag -> node_get (fo_mol fo) (cf (nk n)) (S "fragid") = Some (VList [VInt (nk mn)]) /\
-                            node_get (fo_mol fo) (cf (nk n)) (S "mapping") = Some (mapping_val name (nk n))) /\
+                            node_get (fo_mol fo) (cf (nk n)) (S "mapping") = Some (mapping_val name (nk n)) /\
+                            forall key v, ~ In key written_keys -> aget key (na n) = Some v -> node_get (fo_mol fo) (cf (nk n)) key = Some v) /\
     (forall a b, In a (node_keys frag) -> In b (node_keys frag) -> has_edge (fo_mol fo) (cf a) (cf b) = has_edge frag a b).
 Proof. exact step_allatom_copy. Qed.
 (** non-vacuity: {[#A][#A]}.{#A=CC[$]} all-atom with the model's own bonded graph as transcript: the step returns, nothing is
